@@ -500,3 +500,10 @@ def d13_8(ctx):
             me2 = Obj(raw=bytes(off) + bytes([st, 0]), service_status=st, command_status=st)
             kind, res = run_function(ctx, c.module, fn, {"self": me2}, deep=False)
             ctx.check(kind == "return" and res == gen, ckey(f"{c.key}.{meth}", "witness-no-ext"), fn, f"without extended words: '{gen}'", f"{cname}.{meth} gives {res!r} for status {st:#04x} without extended words (expected '{gen}')")
+
+
+# the outcome of a fragmented transfer is classified from every fragment's reply (a failed fragment fails the transfer whichever
+# position it has): the fragmented senders' witnesses are obligations of this property too
+from .driver import d4_10 as _d4_10  # noqa: E402
+
+rule(P, "D13.11", "T-WITNESS", floor=4)(_d4_10)
